@@ -25,7 +25,7 @@ def drive(case, data, stream):
     """returns [(raw, parsed, stream position after delivery, faults applied so far)]"""
     from pyrtcm import RTCMReader
 
-    rdr = RTCMReader(stream, validate=1, quitonerror=case["qoe"], parsed=True)
+    rdr = RTCMReader(stream, validate=case.get("validate", 1), quitonerror=case["qoe"], parsed=True)
     out = []
     guard = 0
     limit = 2 * (len(data) + len(case["script"])) + 64
@@ -142,9 +142,9 @@ def drive_socket(case, data):
             # the application wraps the socket itself (SocketWrapper is public) and hands the wrapper to the reader
             from pyrtcm.socketwrapper import SocketWrapper
 
-            rdr = RTCMReader(SocketWrapper(sock, bufsize=case["bufsize"], **kw), validate=1, quitonerror=case["qoe"], parsed=True)
+            rdr = RTCMReader(SocketWrapper(sock, bufsize=case["bufsize"], **kw), validate=case.get("validate", 1), quitonerror=case["qoe"], parsed=True)
         else:
-            rdr = RTCMReader(sock, validate=1, quitonerror=case["qoe"], parsed=True, bufsize=case["bufsize"], **kw)
+            rdr = RTCMReader(sock, validate=case.get("validate", 1), quitonerror=case["qoe"], parsed=True, bufsize=case["bufsize"], **kw)
         guard = 0
         limit = 4 * len(wire) + 4 * len(data) + 4 * len(events) + 256
         while True:
@@ -250,6 +250,14 @@ def o_stream(case):
 
 @st.composite
 def s_stream(draw, tier):
+    case = draw(_s_stream(tier))
+    # "validation on" is a bit flag (VALCKSUM = 1, tested with &): any word with bit 0 set
+    case["validate"] = draw(st.sampled_from([1, 1, 1, 1, True, 3, 5, 0xFF]))
+    return case
+
+
+@st.composite
+def _s_stream(draw, tier):
     items = streams.flatten(draw(st.lists(streams.adversarial_items("small"), min_size=1, max_size=12)))
     if draw(st.integers(0, 11)) == 0:
         return {"items": items, "script": [], "qoe": draw(st.sampled_from([0, 1, 2])), "stream": "file"}
